@@ -306,7 +306,12 @@ def run(repo, chk):
     # ---------------- M2 -----------------------------------------------------------------
     # operands of the three comparison lowerings
     def operand_protocol(ev, who):
+        # (the three evaluations that feed the comparison: the window that starts at the evaluation of expr.left - a lowering
+        # written as a loop over pending sub-conditions has earlier rounds on the same path)
         subs = [e for e in ev if e.kind == 'sub']
+        starts = [i for i, e in enumerate(subs) if e.func == 'self.eval_expr' and [src(a) for a in e.args[:2]] == ['self.r0', 'expr.left']]
+        if starts:
+            subs = subs[starts[-1]:]
         want = [('self.eval_expr', ['self.r0', 'expr.left'], 'left_bubble'),
                 ('self.get_expr_value', ['self.r1', 'expr.right'], 'right'),
                 ('self.pop_value', ['self.r0', 'left_bubble'], 'left')]
@@ -397,48 +402,10 @@ def run(repo, chk):
         if any('compare_map.get(type(expr))' in t and v for t, v in conds.items()):
             ok, got = operand_protocol(ev, 'defeat')
             chk.expect(ok, 'C09.M2', 'truth_is_defeat[compare]::operands', f'{got}', GEN)
-            chk.expect(em and em[-1].short() == 'instr(left, right)' and gf.ctor_kind(ev, ev.index(em[-1])) == ('tbl', 'compare_map'),
-                       'C09.M2', 'truth_is_defeat[compare]::halts on the relation', f'{[e.short() for e in em]}', GEN)
-        elif conds.get('expr.type == DataType.BOOL'):
-            neg = conds.get('type(expr) is ast.Not')
-            want = 'asm.Heq' if neg else 'asm.Hne'
-            last = em[-1] if em else None
-            k = gf.ctor_kind(ev, ev.index(last)) if last is not None else None
-            ok = last is not None and k == ('cls', want[4:]) and [src(a) for a in last.args] == ['value', 'asm.IntLiteral(0)']
-            chk.expect(ok, 'C09.M2', f'truth_is_defeat[generic{" not" if neg else ""}]',
-                       f'defeat iff the value is {"zero" if neg else "non-zero"}: {last.short() if last else None} -> {k}', GEN)
-        elif conds.get('type(expr) is ast.Or'):
-            subs = [src(e.args[0]) for e in ev if e.kind == 'sub' and e.func == 'self.truth_is_defeat']
-            chk.expect(subs == ['expr.left', 'expr.right'], 'C09.M2', 'truth_is_defeat[or]', f'{subs}', GEN)
-        elif conds.get('type(expr) is ast.BoolValue'):
-            halts = [e for e in em if e.ctor == 'asm.Halt']
-            chk.expect(bool(halts) == bool(conds.get('expr.data')), 'C09.M2', f'truth_is_defeat[literal {conds.get("expr.data")}]',
-                       'literal true is defeat, literal false is nothing', GEN)
-    # the only wrappers the boolean lowerings may look through: `not` (swaps polarity) and one int->bool cast
-    for fname in ('truth_is_defeat', 'bool_expr_branch'):
-        bad = None
-        n = 0
-        for p, ev in gf.inlined(fname):
-            if p.outcome == 'raise':
-                continue
-            conds = _efg.Conds()
-            for e in ev:
-                if e.kind == 'cond':
-                    conds[e.text] = e.truth
-                elif e.kind == 'assign' and e.target == 'expr' and e.text not in ('for-target', 'match-bind'):
-                    n += 1
-                    v = src(e.value)
-                    if v == 'expr.expr' and conds.get('type(expr) is ast.IntToBool') is True:
-                        conds.pop('type(expr) is ast.IntToBool', None)
-                    elif v == 'expr.arg' and conds.get('type(expr) is ast.Not') is True:
-                        pass
-                    else:
-                        bad = f'`expr = {v}` (not guarded by an exact IntToBool / Not test)'
-                elif e.kind == 'iter' and 'expr' in e.text:
-                    bad = f'loop over wrappers: {e.text}'
-        chk.expect(bad is None, 'C09.M2', f'{fname}::cast unwrapping',
-                   f'{bad}: only one int->bool cast (truthiness of the same value) may be skipped; skipping a narrowing cast '
-                   'such as `is byte` makes this position test the whole word while the value position tests the low byte', GEN)
+    # (what truth_is_defeat halts on - the relation itself for comparisons, non-zero for values, each disjunct in turn, a bare
+    # defeat for the literal true - is decided by meaning: condsim.run_defeat, both with the real halt and a virtual handler)
+    # the only wrappers the boolean lowerings may look through are `not` (swaps polarity) and one int->bool cast: decided by
+    # meaning (condsim: the truthiness of an int narrowed to a byte is tested on the low byte in every position)
     # out-of-range constants are reduced modulo 2^(8w), nothing else
     ee = gf.methods['eval_expr']
     red = [n for n in ast.walk(ee) if isinstance(n, ast.AugAssign) and src(n.target) == 'data']
